@@ -318,8 +318,8 @@ func init() {
 			res, _ := runTrajectory(sc, env, nil, []Oracle{o}, nil)
 			return res
 		},
-		Quick:    600,
-		Thorough: 20000,
+		Quick:    2000,
+		Thorough: 60000,
 		NonTrivial: func(res *Result) bool {
 			return res.Status != "invalid" && res.Status != "crash" && (res.Stats["reach.leaching"] > 0 || res.Stats["reach.upward-flow"] > 0)
 		},
